@@ -52,9 +52,16 @@ def _run_fake(case, tags_all, tags_branch, d):
     else:
         fv.set(tags=tags_all, tags_branch=tags_branch, status="", remote="", branches="")
     k = len(case["all"]) + len(case["cfgver"])
+    # one case in five: every tag is on the remote only (pushed from another clone, pointing at commits this clone has) until the fetch that show / update do by default
+    # (not under --ignore-vcs-tag: the run then does not fetch at all, and its uniqueness check sees the local tags only - observation S25)
+    remote_only = k % 5 == 2 and not case.get("fetch_fails") and not case["ignore"]
+    def to_remote():
+        fv.set(tags=[], tags_branch=[], tags_remote=tags_all, tags_branch_remote=tags_branch, status="", remote="", branches="* main 1234abc [origin/main] msg\n")
+    if remote_only:
+        to_remote()
     proj.write(*project.config_file(["bumpver.toml", "bumpver.toml", "setup.cfg", "pyproject.toml"][k % 4], case["cfgver"], case["pat"], [("f.txt", ["{version}"])], extra={"tag_scope": case["scope"]}, variant=k // 4))
     proj.write("f.txt", "v %s\n" % case["cfgver"])
-    nofetch = [] if case.get("fetch_fails") else ["--no-fetch"]
+    nofetch = [] if (case.get("fetch_fails") or remote_only) else ["--no-fetch"]
     r1 = drive.cli(["show"] + nofetch + (["--ignore-vcs-tag"] if case["ignore"] else []), cwd=proj.root, env=fv.env())
     shown = None
     for ln in r1.stdout.splitlines():
@@ -63,6 +70,8 @@ def _run_fake(case, tags_all, tags_branch, d):
     args = ["update", "--dry"] + nofetch + ["--date", DATE] + (["--ignore-vcs-tag"] if case["ignore"] else [])
     args += (["--tag-scope", case["cli_scope"]] if case.get("cli_scope") else [])
     args += (["--set-version", case["setver"]] if case["setver"] else case["flags"])
+    if remote_only:
+        to_remote()          # (the update starts from the same situation as the show before it)
     r2 = drive.cli(args, cwd=proj.root, env=fv.env())
     import shutil
     shutil.rmtree(proj.root); shutil.rmtree(os.path.join(d, "fake"))
